@@ -114,6 +114,8 @@ class LedgerCheck:
         specs = [{"seed": seed, "kind": "random", "shard": i, "count": n // k} for i in range(k)]
         for i in range(4 if tier == "quick" else 16):
             specs.append({"seed": seed, "kind": "resources", "shard": i, "count": 3000 if tier == "quick" else 40000})
+        for i in range(4 if tier == "quick" else 16):
+            specs.append({"seed": seed, "kind": "pool", "shard": i, "count": 1500 if tier == "quick" else 25000})
         specs.append({"seed": seed, "kind": "exhaustive", "maxlen": 4 if tier == "quick" else 5})
         specs.append({"seed": seed, "kind": "e2e", "count": 60 if tier == "quick" else 1500})
         return specs
@@ -142,6 +144,10 @@ class LedgerCheck:
             rng = random.Random(seed_int("c04r", spec["seed"], spec["shard"]))
             for h in range(spec["count"]):
                 self._resources_history(rng, h)
+        elif spec["kind"] == "pool":
+            rng = random.Random(seed_int("c04p", spec["seed"], spec["shard"]))
+            for h in range(spec["count"]):
+                self._pool_history(rng, h)
         else:
             rng = random.Random(seed_int("c04", spec["seed"], spec["shard"]))
             for h in range(spec["count"]):
@@ -262,6 +268,193 @@ class LedgerCheck:
             m.alloc[key] = list(reported)
             return False
         return True
+
+    # -- histories on a WorkerPool of 2-3 workers: pool-wide loads / evictions, pinned placements, pool views, copies --------
+    def _pool_history(self, rng, h):
+        import copy
+        wl, wk = self.wl, self.wk
+        hist = []
+        nw = rng.randint(2, 3)
+        names = NAMES[:rng.randint(1, 2)]
+        caps, workers, models = [], [], []
+        for wi in range(nw):
+            # each worker owns its own instance ids (as a cluster file gives them)
+            cap = {(n, f"w{wi}{i}"): rng.choice([1, 2, 2, 3]) for n in names for i in IDS[:rng.choice([1, 1, 2])]}
+            caps.append(cap)
+            workers.append(wk.Worker(name=f"W{wi}", resources=self.mk_resources(cap), _logger=self.lg))
+            models.append(MWorker(cap))
+        pool = wk.WorkerPool(name="P", workers=workers, _logger=self.lg)
+        pools = wk.WorkerPools([pool])
+        sspec = {f"S{k}": {"req": [(n, "any", rng.randint(1, 2)) for n in rng.sample(names, rng.randint(1, len(names)))], "batch": 1}
+                 for k in range(rng.randint(2, 3))}
+        strategies = {k: self.mk_strategy(v) for k, v in sspec.items()}
+        lspec = {"req": [(names[0], "any", 1)], "batch": 1}
+        lstrategy = self.mk_strategy(lspec)
+        profiles = [wl.WorkProfile(name=f"P{k}") for k in range(2)]
+        tasks = [self.mk_task(k) for k in range(6)]
+        where = {}      # task index -> worker index
+        loaded = {}     # (profile index, worker index) -> True
+        hist.append(("init", [sorted((f"{n}:{i}", q) for (n, i), q in c.items()) for c in caps], {k: v["req"] for k, v in sspec.items()}))
+
+        def observe_all():
+            return [self.observe_worker(workers[wi], caps[wi], tasks, strategies) for wi in range(nw)]
+
+        def judge(label):
+            for wi in range(nw):
+                obs = self.observe_worker(workers[wi], caps[wi], tasks, strategies)
+                self.expect_worker(models[wi], obs, sspec, hist, f"{label} [W{wi}]")
+                exp_prof = sorted(f"P{pk}" for (pk, w2) in loaded if w2 == wi)
+                if obs["profiles"] != exp_prof:
+                    self.bad("profiles_of_worker", f"{label} [W{wi}]: worker lists {obs['profiles']}, loaded {exp_prof}", hist)
+            want = sorted(f"T{t}" for t in where)
+            got = sorted(t.name for t in pool.get_placed_tasks())
+            if got != want:
+                self.bad("placed_tasks", f"{label}: pool.get_placed_tasks {got} expected {want}", hist)
+
+        copies = []
+        kinds = set()
+        for step in range(rng.randint(3, 12)):
+            op = rng.choice(["place", "place", "remove", "load_all", "load_one", "evict_all", "evict_one", "view", "view", "copy", "deepcopy"])
+            label = f"step {step} {op}"
+            before = observe_all()
+            try:
+                if op == "place":
+                    free = [t for t in range(6) if t not in where]
+                    if not free:
+                        continue
+                    t, k, wi = rng.choice(free), rng.choice(list(sspec)), rng.randrange(nw)
+                    pinned = rng.random() < 0.7
+                    hist.append((op, f"T{t}", k, f"W{wi}" if pinned else "any worker"))
+                    fits = [w2 for w2 in range(nw) if models[w2].feasible(req_of(sspec[k]))]
+                    exp_ok = (wi in fits) if pinned else bool(fits)
+                    ok = pool.place_task(tasks[t], execution_strategy=strategies[k], worker_id=workers[wi].id if pinned else None)
+                    if bool(ok) != exp_ok:
+                        self.bad("allocation_disagrees", f"{label}: pool.place_task returned {ok}, model says {'fits' if exp_ok else 'does not fit'} (fits on {fits})", hist)
+                    if ok:
+                        on = [w2 for w2 in range(nw) if tasks[t] in workers[w2].get_placed_tasks()]
+                        if len(on) != 1 or (pinned and on != [wi]):
+                            self.bad("task_on_wrong_workers", f"{label}: T{t} resident on workers {on}", hist)
+                            break
+                        if not self.admit(models[on[0]], ("task", t), req_of(sspec[k]), self.reported_task(workers[on[0]], tasks[t]), hist, label):
+                            break
+                        where[t] = on[0]
+                        kinds.add("place_ok")
+                    else:
+                        kinds.add("place_refused")
+                        if observe_all() != before:
+                            self.bad("refused_request_changed_state", f"{label}", hist)
+                elif op == "remove":
+                    if not where:
+                        continue
+                    t = rng.choice(sorted(where))
+                    hist.append((op, f"T{t}"))
+                    pool.remove_task(self.ET.zero(), tasks[t])
+                    models[where.pop(t)].release(("task", t))
+                    kinds.add("remove")
+                elif op in ("load_all", "load_one"):
+                    pk = rng.randrange(2)
+                    targets = list(range(nw)) if op == "load_all" else [rng.randrange(nw)]
+                    if any((pk, wi) in loaded for wi in targets):
+                        continue
+                    hist.append((op, f"P{pk}", targets))
+                    exp_ok = all(models[wi].feasible(req_of(lspec)) for wi in targets)
+                    if not exp_ok:
+                        continue  # the caller must ask first (Worker.load_profile's contract); a half-done pool-wide load is not judged
+                    pool.load_profile(profiles[pk], lstrategy, None if op == "load_all" else workers[targets[0]].id)
+                    for wi in targets:
+                        if not self.admit(models[wi], ("profile", pk), req_of(lspec), self.reported_profile(workers[wi], caps[wi], profiles[pk]), hist, label):
+                            break
+                        loaded[(pk, wi)] = True
+                    kinds.add(op)
+                    self.bump("pool_profile_loads")
+                elif op in ("evict_all", "evict_one"):
+                    cands = sorted({pk for (pk, wi) in loaded})
+                    if not cands:
+                        continue
+                    pk = rng.choice(cands)
+                    on = sorted(wi for (p2, wi) in loaded if p2 == pk)
+                    if op == "evict_all" and len(on) != nw:
+                        continue  # pool-wide eviction of a profile that is not on every worker raises by contract
+                    targets = on if op == "evict_all" else [rng.choice(on)]
+                    hist.append((op, f"P{pk}", targets))
+                    pool.evict_profile(profiles[pk], None if op == "evict_all" else workers[targets[0]].id)
+                    for wi in targets:
+                        models[wi].release(("profile", pk))
+                        del loaded[(pk, wi)]
+                    kinds.add(op)
+                    self.bump("pool_profile_evictions")
+                elif op == "view":
+                    # read-only summaries of the pool (what the simulator logs at every scheduler start): reading must change nothing
+                    hist.append((op,))
+                    total = pool.resources
+                    for n in names:
+                        a = wl.Resource(name=n, _id="any")
+                        want_total = sum(m.total(n) for m in models)
+                        want_free = sum(m.free(n) for m in models)
+                        if total.get_total_quantity(a) != want_total or total.get_available_quantity(a) != want_free \
+                                or total.get_allocated_quantity(a) != want_total - want_free:
+                            self.bad("pool_view_wrong", f"{label}: pool.resources says {n}: total {total.get_total_quantity(a)} available "
+                                                        f"{total.get_available_quantity(a)} allocated {total.get_allocated_quantity(a)}; workers hold "
+                                                        f"total {want_total} free {want_free}", hist)
+                    try:
+                        pool.get_utilization()
+                    except Exception as e:
+                        self.bad("pool_view_raises", f"{label}: get_utilization: {type(e).__name__}: {e}", hist)
+                    if observe_all() != before:
+                        self.bad("read_only_view_changed_state", f"{label}: reading pool.resources / get_utilization changed a worker's ledger", hist)
+                    kinds.add("view")
+                    self.bump("pool_views")
+                else:
+                    hist.append((op,))
+                    src = pools if rng.random() < 0.5 else pool
+                    c = copy.copy(src) if op == "copy" else copy.deepcopy(src)
+                    cws = (list(c.worker_pools)[0] if src is pools else c).workers
+                    co = [self.observe_worker(cws[wi], caps[wi], tasks, strategies) for wi in range(nw)]
+                    if op == "copy" and co != before:
+                        self.bad("copy_differs_from_original", f"{label}: differing getters on workers "
+                                                              f"{[wi for wi in range(nw) if co[wi] != before[wi]]}", hist)
+                    if op == "deepcopy":
+                        for wi in range(nw):
+                            self.expect_worker(MWorker(caps[wi]), co[wi], sspec, hist, label + f" (deepcopy must be empty/full) [W{wi}]")
+                    if any(cws[wi] is workers[wi] for wi in range(nw)):
+                        self.bad("copy_shares_worker", f"{label}: the {op} holds an original Worker object", hist)
+                    copies.append((cws, co, op))
+                    kinds.add(op)
+                    self.bump("copies")
+            except Exception as e:
+                self.bad(f"unexpected_exception:{type(e).__name__}", f"{label}: {type(e).__name__}: {e}", hist)
+                break
+            judge(label)
+            self.bump("steps")
+            for cws, co0, cop in copies:
+                con = [self.observe_worker(cws[wi], caps[wi], tasks, strategies) for wi in range(nw)]
+                if con != co0:
+                    self.bad("copy_not_independent", f"{label}: the {cop} taken earlier changed when the original was mutated", hist)
+        # drain
+        try:
+            for t in sorted(where):
+                pool.remove_task(self.ET.zero(), tasks[t])
+                models[where[t]].release(("task", t))
+            where.clear()
+            for (pk, wi) in sorted(loaded):
+                pool.evict_profile(profiles[pk], workers[wi].id)
+                models[wi].release(("profile", pk))
+            loaded.clear()
+            hist.append(("drain",))
+            judge("after removing everything")
+            for wi in range(nw):
+                obs = self.observe_worker(workers[wi], caps[wi], tasks, strategies)
+                for (n, i), c in caps[wi].items():
+                    if obs["inst"][(n, i)] != c:
+                        self.bad("not_full_after_drain", f"W{wi} {n}:{i} available {obs['inst'][(n, i)]} capacity {c}", hist)
+        except Exception as e:
+            self.bad(f"unexpected_exception:{type(e).__name__}", f"drain: {type(e).__name__}: {e}", hist)
+        self.bump("pool_histories")
+        self.bump("histories")
+        for k in kinds:
+            self.bump("pkind_" + k)
+        if len(kinds) >= 3:
+            self.nontrivial.add(case_hash(hist))
 
     # -- one random history on a Worker / WorkerPool ----------------------------------
     def _history(self, rng, h):
@@ -813,7 +1006,9 @@ class LedgerCheck:
         need = {"kind_place_ok": 500, "kind_place_refused": 500, "kind_remove": 500, "kind_remove_refused": 300,
                 "kind_copy": 500, "kind_deepcopy": 300, "kind_load": 300, "kind_evict": 200, "kind_mutate_copy": 200,
                 "kind_batch_emptied": 100, "e2e_idle_capacity_checks": 1000, "direct_place_task_calls": 1000,
-                "copies_of_worker_pools": 1000, "copies_of_saturated_worker_pools": 100, "removed_on_copy": 100}
+                "copies_of_worker_pools": 1000, "copies_of_saturated_worker_pools": 100, "removed_on_copy": 100,
+                "pool_histories": 3000, "pool_views": 2000, "pool_profile_loads": 1000, "pool_profile_evictions": 300,
+                "pkind_load_all": 300, "pkind_evict_all": 50}
         inconclusive = [f"{k} seen {tot.get(k, 0)} times (< {v})" for k, v in need.items() if tot.get(k, 0) < v]
         if tot.get("histories", 0) < (30000 if tier == "quick" else 1000000):
             inconclusive.append(f"only {tot.get('histories', 0)} histories")
@@ -822,7 +1017,8 @@ class LedgerCheck:
                "rule": "random operation histories (2-12 ops: place / place-in-batch / remove / illegal remove / load / evict / copy / "
                        "deepcopy / mutate-a-copy (place or remove on it), then drain) on a Worker, a single-worker WorkerPool or a WorkerPools around it (copies taken at that level) over 1-3 resource names x 1-3 "
                        "instances x quantity 0-3 with 'any' and specific-id requests, plus every sequence of length <= 4 over a 9-op "
-                       "alphabet on the vector A:x=2,A:y=1; after every step all public getters are compared with an independent "
+                       "alphabet on the vector A:x=2,A:y=1, plus histories on a pool of 2-3 workers (pinned / unpinned placements, pool-wide and "
+                       "per-worker profile loads and evictions, the read-only pool views `resources` / `get_utilization`, copies); after every step all public getters are compared with an independent "
                        "occupancy model; non-trivial = a history with >= 3 different operation outcomes (hash of the history)",
                "samples": [s for r in results for s in r["samples"]][:5],
                "exhaustive": False,
